@@ -1,6 +1,6 @@
 /-
 C03 — Exclusive manager: one lock holder, and only the holder acts.
-PROPERTY THEOREMS ONLY (helper lemmas: MysyncProofs/Lemmas/LockLemmas.lean).
+PROPERTY THEOREMS ONLY (helper lemmas: MysyncProofs/Lemmas/LockServer.lean, LockInv.lean, LockLemmas.lean).
 
 (i)  the lock protocol: MysyncModel/Dcs/LockSys.lean — N clients running the SAME programs
      (`Zk.opAcquire`, `Zk.opRelease`) that the replay checks against the real `zkDCS`, one atomic
@@ -37,15 +37,26 @@ theorem told_true_means_holder (ids : List String) (lock : Path) (ttl : Int) (pa
     (i : Nat) (cached : Bool)
     (h : (step (run (init ids lock ttl parents) steps) st).told = (i, cached) :: (run (init ids lock ttl parents) steps).told) :
     holds (step (run (init ids lock ttl parents) steps) st) i = true := by
-  sorry
+  have hp : LockLemmas.Par lock parents := ⟨hi.2.1, hi.2.2.1, hi.2.2.2.2.1⟩
+  have hinv := LockLemmas.inv_step hp hi.1 (LockLemmas.inv_run hp hi.1 (LockLemmas.inv_init hp ttl) steps hg) st hst
+  obtain ⟨c', hc', hcache⟩ := LockLemmas.told_grows_cache _ st i cached h
+  rw [LockLemmas.holds_iff, hinv.core.lock_eq]
+  exact ⟨c', hc', ((hinv.ok i c' hc').1 hcache).2⟩
 
 /-- at most one process can be the holder at any instant -/
 theorem holder_unique (ids : List String) (lock : Path) (ttl : Int) (parents : List (Path × ZNode))
     (hi : GoodInit ids lock parents) (steps : List Step) (hg : ∀ st ∈ steps, st.guarded = true) (i j : Nat)
     (h1 : holds (run (init ids lock ttl parents) steps) i = true) (h2 : holds (run (init ids lock ttl parents) steps) j = true) :
     i = j := by
-  sorry
+  have hp : LockLemmas.Par lock parents := ⟨hi.2.1, hi.2.2.1, hi.2.2.2.2.1⟩
+  have hinv := LockLemmas.inv_run hp hi.1 (LockLemmas.inv_init hp ttl) steps hg
+  rw [LockLemmas.holds_iff, hinv.core.lock_eq] at h1 h2
+  obtain ⟨ci, hci, hhi⟩ := h1
+  obtain ⟨cj, hcj, hhj⟩ := h2
+  exact hinv.core.holder_same hi.1 hci hcj hhi hhj
 
+-- (holds in every state, reachable or not: `hi`, `hg` are not needed)
+set_option linter.unusedVariables false in
 /-- a process whose session was lost is not told `true` again unless it re-acquired: right after the
 (guarded) expiry of its session it neither holds the lock nor has a cache entry, so the next `true` can
 only come from a primitive executed on a new session -/
@@ -55,7 +66,7 @@ theorem after_expiry_not_holder (ids : List String) (lock : Path) (ttl : Int) (p
     (he : step (run (init ids lock ttl parents) steps) (.expire i) ≠ run (init ids lock ttl parents) steps) :
     let σ' := step (run (init ids lock ttl parents) steps) (.expire i)
     holds σ' i = false ∧ (∀ c', σ'.clients[i]? = some c' → c'.cache = none) := by
-  sorry
+  exact LockLemmas.expire_not_holder _ i c hc he
 
 /-- releasing never removes a lock owned by another process: whenever a `delete` of the lock key is
 executed for client i, the znode it removes (if any) carries i's identity -/
@@ -65,13 +76,24 @@ theorem release_removes_only_own_lock (ids : List String) (lock : Path) (ttl : I
     (hc : (run (init ids lock ttl parents) steps).clients[i]? = some c)
     (hp : c.prog = some (.call (.delete lock ver) k)) :
     lockData (run (init ids lock ttl parents) steps) = some c.id ∨ lockData (run (init ids lock ttl parents) steps) = none := by
-  sorry
+  have hp' : LockLemmas.Par lock parents := ⟨hi.2.1, hi.2.2.1, hi.2.2.2.2.1⟩
+  have hinv := LockLemmas.inv_run hp' hi.1 (LockLemmas.inv_init hp' ttl) steps hg
+  left
+  rcases (hinv.ok i c hc).2 with (h2 | h2 | h2 | h2 | ⟨m, h2, _⟩) | ⟨m, ver', _, _, n, hf, hd, _, _⟩
+  · rw [h2] at hp; cases hp
+  · rw [h2] at hp; cases hp
+  · rw [h2] at hp; simp at hp
+  · rw [h2] at hp; simp at hp
+  · rw [h2] at hp; simp at hp
+  · unfold lockData
+    rw [hinv.core.lock_eq, hf, ← hd]
+    rfl
 
 /-- no lock without asking the server within the TTL: a cached `true` was preceded by a confirmation at
 most `ttl` ago — with TTL 0 the cache never answers -/
 theorem ttl_zero_never_cached (ids : List String) (lock : Path) (parents : List (Path × ZNode)) (steps : List Step) (i : Nat) :
     (i, true) ∉ (run (init ids lock 0 parents) steps).told := by
-  sorry
+  exact (LockLemmas.ttl_run (LockLemmas.ttl_init ids lock parents) steps).2.2 i
 
 /-! ### the role of E5: counter-models without it (both replayed on the real client, see DESIGN.md) -/
 
@@ -81,7 +103,7 @@ def twoClients : Sys := init ["A", "B"] ["ns", "manager"] 30 [(["ns"], { data :=
 theorem stale_cache_without_E5 :
     let σ := run twoClients [.beginAcquire 0, .prim 0, .prim 0, .expireAny 0, .beginAcquire 1, .prim 1, .prim 1, .tick 1, .beginAcquire 0]
     σ.told.head? = some (0, true) ∧ holds σ 0 = false ∧ holds σ 1 = true := by
-  sorry
+  decide
 
 /-- A's session ends between the read and the delete of its `ReleaseLock`; B acquires; A's delete — sent
 on A's next session — removes B's lock (lock znodes are never `set`, so their version is always 0) -/
@@ -90,7 +112,7 @@ theorem foreign_lock_removed_without_E5 :
                                .beginAcquire 1, .prim 1, .prim 1]
     let σ1 := step σ0 (.prim 0)
     holds σ0 1 = true ∧ lockData σ0 = some "B" ∧ lockData σ1 = none ∧ (σ1.clients[1]?.bind (·.cache)).isSome = true := by
-  sorry
+  decide
 
 /-- Why `ReleaseLock` must re-read the owner before EVERY delete attempt (it did not before the `fix:` commit
 recorded in known_findings.json — found by this check on the real client): lock znodes are created fresh and
@@ -104,14 +126,17 @@ theorem blind_retried_delete_removes_foreign_lock :
     let s3 := (s2.step 2 (.create lock "B" true)).1          -- B acquires
     (s3.find? lock).map (·.data) = some "B" ∧
     (s3.step 1 (.delete lock 0)) = (s2, .deleted) := by      -- A's re-sent delete removes B's lock
-  sorry
+  decide
 
 /-! ### (ii) only the holder acts -/
 
 /-- an iteration that is not told `true` (or has no connection) does nothing and steps down -/
 theorem no_lock_no_action (cfg : Manager.Cfg) (i : Manager.In) (h : i.connected = false ∨ i.lockHeld = false) :
     (Manager.stateManager cfg i).steps = [] ∧ (Manager.stateManager cfg i).next ≠ Manager.State.manager := by
-  sorry
+  unfold Manager.stateManager
+  rcases h with h | h
+  · simp [h]
+  · cases hc : i.connected <;> simp [h]
 
 -- non-vacuity: the guarded system does reach states with a holder, a cache entry and a hand-over
 example : holds (run twoClients [.beginAcquire 0, .prim 0, .prim 0]) 0 = true := by decide
